@@ -97,6 +97,7 @@ type Path struct {
 	nobj     int
 	nerr     int
 	njv      int
+	eqDepth  int
 	globals  map[*ssa.Global]*Object
 	sentinels map[string]Value
 	inputs   []*Input
